@@ -1129,7 +1129,10 @@ impl GenericIfData {
                 writer.add_integer(value.0, value.1, *offset);
             }
             Self::Float(offset, value) => {
-                writer.add_float(*value, *offset);
+                // widening the f32 directly would print its binary expansion (0.44 -> 0.4399999976158142);
+                // the shortest text that gives the same f32 back is the shortest text of the f32 itself
+                let widened = value.to_string().parse::<f64>().unwrap_or(f64::from(*value));
+                writer.add_float(widened, *offset);
             }
             Self::Double(offset, value) => {
                 writer.add_float(*value, *offset);
